@@ -42,7 +42,7 @@ def anchor_names():
         return _ANCHORS
     here = os.path.dirname(os.path.abspath(__file__))
     names = set()
-    files = [os.path.join(here, f) for f in os.listdir(here) if f.endswith('.py') and f not in ('variants.py', 'normalize.py')]
+    files = [os.path.join(here, f) for f in os.listdir(here) if f.endswith('.py') and f != 'normalize.py' and not f.startswith('variants')]
     pd = os.path.join(here, 'props')
     files += [os.path.join(pd, f) for f in os.listdir(pd) if f.endswith('.py')]
     for p in files:
